@@ -1249,3 +1249,252 @@ def check_C11(run):
 
 
 CHECKS["C11"] = check_C11
+
+
+# ============================================================================= C13
+
+RE_EXP_DIR = re.compile(r"^([a-zA-Z0-9_-]+)\.task\.([1-9][0-9]*)$")
+RE_TASK_DIR = re.compile(r"^[a-zA-Z0-9_-]+\.task(\.[1-9][0-9]*)?$")
+
+
+def expected_gc_deletions(tree, rows):
+    """directories named <name>.task.<ts> reachable from cond-out without passing through a task output
+    directory, whose (identifier from the relative path, ts) is not a recorded version"""
+    recorded = {(r[0], r[1]) for r in rows}
+    out = set()
+    for p, v in tree.items():
+        if v != ("d",):
+            continue
+        parts = p.split("/")
+        m = RE_EXP_DIR.match(parts[-1])
+        if not m:
+            continue
+        if any(RE_TASK_DIR.match(c) for c in parts[:-1]):
+            continue
+        ident = "//%s:%s" % ("/".join(parts[:-1]), m.group(1))
+        if (ident, int(m.group(2))) not in recorded:
+            out.add(p)
+    return out
+
+
+def check_C13(run):
+    V, facts = [], {"nontrivial": [], "reach": {}}
+    reach = facts["reach"]
+    for i, st in enumerate(run.steps):
+        inv = st.inv
+        if inv is None or st.op["op"] != "gc" or st.before is None or st.after is None or inv.killed:
+            continue
+        rows = st.before["rows"] if isinstance(st.before["rows"], list) else []
+        if isinstance(st.before["rows"], str):
+            continue
+        tb, ta = st.before["tree"], st.after["tree"]
+        flags = st.op.get("flags", {})
+        expect = expected_gc_deletions(tb, rows)
+        cwd_abs = os.path.normpath(os.path.join(str(run.root), st.op.get("cwd", "")))
+        co = os.path.join(str(run.root), "cond-out")
+        if inv.internal is not None:
+            V.append(Violation("C13", "gc-internal-error %s at %s" % (inv.internal[0], inv.internal[1]),
+                               {"internal": list(inv.internal)[:3]}, i))
+        elif inv.code != 0:
+            V.append(Violation("C13", "gc-failed", {"err": inv.err.decode("utf-8", "replace")[-300:]}, i))
+        gone_all = {p for p in tb if p not in ta}
+        gone_top = {p for p in gone_all if not any(p.startswith(q + "/") for q in gone_all)}
+        changed = {p for p in ta if p in tb and ta[p] != tb[p]} | {p for p in ta if p not in tb}
+        if st.before.get("outside") != st.after.get("outside"):
+            lost = sorted(set(st.before.get("outside", {})) - set(st.after.get("outside", {})))
+            V.append(Violation("C13", "gc-deleted-something-outside-cond-out", {"lost": lost[:5]}, i))
+        if changed:
+            V.append(Violation("C13", "gc-modified-entries", {"changed": sorted(changed)[:5]}, i))
+        text = strip(inv.out.decode("utf-8", "replace"))
+        listed = set()
+        for line in text.splitlines():
+            for pre in ("Would delete ", "Deleting "):
+                if line.startswith(pre):
+                    ab = os.path.normpath(os.path.join(cwd_abs, line[len(pre):]))
+                    listed.add(os.path.relpath(ab, co))
+        if flags.get("dry"):
+            if gone_all:
+                V.append(Violation("C13", "dry-run-deleted-something", {"gone": sorted(gone_top)[:5]}, i))
+            if inv.internal is None and listed != expect:
+                V.append(Violation("C13", "dry-run-list-differs-from-what-gc-must-delete",
+                                   {"listed_only": sorted(listed - expect)[:5], "missing": sorted(expect - listed)[:5]}, i))
+        else:
+            if inv.internal is None and gone_top != expect:
+                extra, missing = sorted(gone_top - expect), sorted(expect - gone_top)
+                if extra:
+                    recorded = {M.out_dir_rel(r[0], r[1]) for r in rows}
+                    what = "gc-deleted-a-recorded-version" if set(extra) & recorded else \
+                        ("gc-deleted-something-nested-inside-a-task-output" if any(
+                            any(RE_TASK_DIR.match(c) for c in p.split("/")[:-1]) for p in extra)
+                         else "gc-deleted-something-that-is-not-an-unrecorded-experiment-output")
+                    V.append(Violation("C13", what, {"extra": extra[:5]}, i))
+                if missing:
+                    V.append(Violation("C13", "gc-left-an-unrecorded-experiment-output", {"missing": missing[:5]}, i))
+            if flags.get("verbose") and inv.internal is None and listed != expect:
+                V.append(Violation("C13", "verbose-list-differs-from-deletions",
+                                   {"listed_only": sorted(listed - expect)[:5], "missing": sorted(expect - listed)[:5]}, i))
+        facts["nontrivial"].append("gc-%s-e%d-r%d" % ("dry" if flags.get("dry") else "real", min(len(expect), 5), min(len(rows), 4)))
+        if expect:
+            reach["gc_with_something_to_delete"] = reach.get("gc_with_something_to_delete", 0) + 1
+        nested = [p for p, v in tb.items() if v == ("d",) and RE_EXP_DIR.match(p.split("/")[-1])
+                  and any(RE_TASK_DIR.match(c) for c in p.split("/")[:-1])]
+        if nested:
+            reach["lookalike_nested_in_task_output"] = reach.get("lookalike_nested_in_task_output", 0) + 1
+        if any(p.startswith("archive-tmp") for p in tb):
+            reach["staging_leftovers_present"] = reach.get("staging_leftovers_present", 0) + 1
+        if "outside" in st.before:
+            reach["symlink_to_outside_present"] = reach.get("symlink_to_outside_present", 0) + 1
+    return V, facts
+
+
+CHECKS["C13"] = check_C13
+
+
+# ============================================================================= C18
+
+def check_C18(run):
+    V, facts = [], {"nontrivial": [], "reach": {}}
+    tasks = run.scn["tasks"]
+    root = str(run.root)
+    reach = facts["reach"]
+    co = os.path.join(root, "cond-out")
+    for i, st in run_steps(run):
+        inv = st.inv
+        if inv.killed or inv.deadlock is not None or st.after is None or st.before is None:
+            continue
+        o = RunObs(run.scn, st)
+        started = {t for ti, k, t, x in o.events if k == "start"}
+        own_dir = {}
+        for sp in inv.spawns:
+            if sp["task"] in tasks and sp["env"].get("COND_OUT"):
+                own_dir.setdefault(sp["task"], sp["env"]["COND_OUT"])
+        exit_ok = {t for ti, k, t, x in o.events if k == "exit" and x["status"] == 0}
+        ta, tb = st.after["tree"], st.before["tree"]
+        failed_printed = {t for ti, kind, t, _, _ in o.printed if kind == "failed"}
+        for c in sorted(started):
+            if c not in tasks or tasks[c]["kind"] != "combine":
+                continue
+            c_rel = M.out_dir_rel(c)
+            conflict = None
+            expected = {}
+            for d in tasks[c]["deps"]:
+                kd = tasks[d]["kind"]
+                if kd == "group":
+                    continue
+                if kd in ("cmd", "combine"):
+                    ddir = os.path.join(co, M.out_dir_rel(d))
+                else:
+                    if d in own_dir:
+                        ddir = own_dir[d]
+                    else:
+                        sel = M.select_version(d, o.rows_before, o.git)
+                        ddir = os.path.join(co, M.out_dir_rel(d, sel[1])) if sel else None
+                if ddir is None:
+                    continue
+                drel = os.path.relpath(ddir, co)
+                nonempty = ta.get(drel) == ("d",) and any(k.startswith(drel + "/") for k in ta)
+                if not nonempty:
+                    continue
+                name = split_tid(d)[1]
+                entry = c_rel + "/" + name
+                expected[entry] = (d, ddir)
+                pre = tb.get(entry)
+                if pre is not None and pre[0] != "l" and conflict is None:
+                    conflict = (entry, d)
+            if conflict is not None:
+                reach["combine_conflict"] = reach.get("combine_conflict", 0) + 1
+                entry, d = conflict
+                if I.subtree(ta, entry) != I.subtree(tb, entry):
+                    V.append(Violation("C18", "entry-that-is-not-a-conductor-link-was-overwritten", {"entry": entry}, i))
+                if inv.code == 0 or c not in failed_printed:
+                    V.append(Violation("C18", "conflicting-entry-not-reported-as-error",
+                                       {"entry": entry, "code": inv.code, "failed": sorted(failed_printed)}, i))
+                facts["nontrivial"].append("conflict")
+                continue
+            if c in failed_printed or inv.internal is not None:
+                V.append(Violation("C18", "combine-failed-without-conflict",
+                                   {"task": c, "internal": list(inv.internal)[:3] if inv.internal else None,
+                                    "err": inv.err.decode("utf-8", "replace")[-300:]}, i))
+                continue
+            for entry, (d, ddir) in sorted(expected.items()):
+                got = ta.get(entry)
+                if got is None:
+                    V.append(Violation("C18", "combine-entry-missing", {"entry": entry, "dep": d}, i))
+                elif got[0] != "l":
+                    V.append(Violation("C18", "combine-entry-is-not-a-link", {"entry": entry, "dep": d}, i))
+                else:
+                    resolved = os.path.normpath(os.path.join(co, os.path.dirname(entry), got[1]))
+                    if resolved != os.path.normpath(ddir):
+                        what = "combine-entry-points-to-another-version" if tasks[d]["kind"] == "exp" and \
+                            resolved.startswith(os.path.join(co, M.out_dir_rel(d)) + ".") else "combine-entry-points-elsewhere"
+                        V.append(Violation("C18", what, {"entry": entry, "dep": d, "got": resolved, "expected": ddir}, i))
+                    elif tb.get(entry) is not None and tb.get(entry) != got:
+                        reach["entry_updated_to_new_version"] = reach.get("entry_updated_to_new_version", 0) + 1
+            kinds = "".join(sorted({tasks[d]["kind"][0] for d in tasks[c]["deps"]}))
+            facts["nontrivial"].append("combine-%s-%d" % (kinds, len(expected)))
+    return V, facts
+
+
+CHECKS["C18"] = check_C18
+
+
+# ============================================================================= C17
+
+PATH_PREFIXES = ("Would delete ", "Deleting ", "✨ Done! Archive saved as ")
+
+
+def normalize_output(text, cwd_abs, work):
+    out = []
+    for line in strip(text).splitlines():
+        for pre in PATH_PREFIXES:
+            if line.startswith(pre):
+                ab = os.path.normpath(os.path.join(cwd_abs, line[len(pre):]))
+                line = pre + ab
+                break
+        out.append(line.replace(work, "$W"))
+    return out
+
+
+def check_C17(run):
+    V, facts = [], {"nontrivial": [], "reach": {}}
+    ref = getattr(run, "ref", None)
+    if ref is None:
+        return V, facts
+    reach = facts["reach"]
+    for i, (sa, sb) in enumerate(zip(ref.steps, run.steps)):
+        if sa.inv is None or sb.inv is None:
+            continue
+        a, b = sa.inv, sb.inv
+        kind = sb.op["op"]
+        cwd = getattr(sb, "cwd_used", "")
+        if not cwd:
+            continue
+        where = "cond-out" if cwd.startswith("cond-out") else ("package" if cwd in run.scn.get("pkgs", []) and not cwd.startswith("nocond") else "other")
+        tag = "%s from %s" % (kind, where)
+        if b.internal is not None and a.internal is None:
+            V.append(Violation("C17", "internal-error-only-from-subdirectory %s at %s (%s)" % (b.internal[0], b.internal[1], tag),
+                               {"cwd": cwd, "internal": list(b.internal)[:3]}, i))
+            continue
+        if a.code != b.code:
+            V.append(Violation("C17", "exit-status-depends-on-working-directory (%s)" % tag,
+                               {"cwd": cwd, "root": a.code, "sub": b.code,
+                                "err": b.err.decode("utf-8", "replace")[-300:]}, i))
+            continue
+        if sa.after is not None and sb.after is not None:
+            if sa.after["rows"] != sb.after["rows"]:
+                V.append(Violation("C17", "recorded-versions-depend-on-working-directory (%s)" % tag, {"cwd": cwd}, i))
+            elif sa.after["tree"] != sb.after["tree"]:
+                diff = sorted(set(map(str, sa.after["tree"].items())) ^ set(map(str, sb.after["tree"].items())))[:4]
+                V.append(Violation("C17", "cond-out-contents-depend-on-working-directory (%s)" % tag,
+                                   {"cwd": cwd, "diff": diff}, i))
+        oa = normalize_output(a.out.decode("utf-8", "replace"), str(ref.root), str(ref.work))
+        ob = normalize_output(b.out.decode("utf-8", "replace"), os.path.join(str(run.root), cwd), str(run.work))
+        if kind != "run" and sorted(oa) != sorted(ob):
+            V.append(Violation("C17", "reported-locations-depend-on-working-directory (%s)" % tag,
+                               {"cwd": cwd, "root": oa[-4:], "sub": ob[-4:]}, i))
+        facts["nontrivial"].append(tag)
+        reach["compared_" + kind] = reach.get("compared_" + kind, 0) + 1
+    return V, facts
+
+
+CHECKS["C17"] = check_C17
